@@ -21,6 +21,7 @@ impl TraceRoot for Vm {
     self.packages.trace();
     self.module_cache.trace();
     self.capture_stub.trace();
+    self.inline_cache.iter().for_each(|cache| cache.trace());
 
     for stub in &self.native_fun_stubs {
       stub.trace();
@@ -35,6 +36,10 @@ impl TraceRoot for Vm {
     self.packages.trace_debug(log);
     self.module_cache.trace_debug(log);
     self.capture_stub.trace_debug(log);
+    self
+      .inline_cache
+      .iter()
+      .for_each(|cache| cache.trace_debug(log));
 
     for stub in &self.native_fun_stubs {
       stub.trace_debug(log);
